@@ -559,9 +559,9 @@ func generate(out *kit.Out, f kit.Flags) {
 		liveZones = zones
 	}
 	for k, tz := range liveZones {
-		shapes := "es,lh,uh,lhm,uhm,ld,ud,lw,uw"
+		shapes := "es,lh,uh,lhm,uhm,ld,ud,lw,uw,end"
 		if k%2 == 1 {
-			shapes = "s2,uh,lh,uhm,lhm,ud,ld,uw,lw"
+			shapes = "s2,end,uh,lh,uhm,lhm,ud,ld,uw,lw"
 		}
 		emit(out, fmt.Sprintf("cronlive%d", k), []string{fmt.Sprintf("cronlive tz=%d shapes=%s per=%d from=500000000 to=1500000000", tz, shapes, kit.Pick(r, []int64{sec, 3 * sec}))})
 	}
